@@ -59,6 +59,7 @@ type Config struct {
 	Depth     int
 	Attacks   bool // C02: mutation operations on currently valid relay messages
 	AttackSet string
+	Scale     *big.Int // raw amount of one unit of an ERC-20 (and of tokens bound to it); nil = 1. 2^64+1 makes every amount exceed 64 bits with non-zero low bits
 	TSS       bool // B's client of A is a TSS client
 	Prop      string
 }
@@ -130,8 +131,8 @@ func New(cfg Config) *Sys {
 			// origin ERC-20 of this chain (deployed by u1, who holds minter role) with balance for u1
 			t := world.DeployERC20From(c, ctx, u1.Eth, "tok"+short[n])
 			s.tok[short[n]+":erc20"] = t
-			world.KeeperCall(c, ctx, erc20contracts.ERC20MinterBurnerDecimalsContract.ABI, u1.Eth, t, "mint", u1.Eth, big.NewInt(10000))
-			world.KeeperCall(c, ctx, erc20contracts.ERC20MinterBurnerDecimalsContract.ABI, u1.Eth, t, "approve", endpointcontract.EndpointContractAddress, big.NewInt(1000000))
+			world.KeeperCall(c, ctx, erc20contracts.ERC20MinterBurnerDecimalsContract.ABI, u1.Eth, t, "mint", u1.Eth, s.rawCfg(10000))
+			world.KeeperCall(c, ctx, erc20contracts.ERC20MinterBurnerDecimalsContract.ABI, u1.Eth, t, "approve", endpointcontract.EndpointContractAddress, s.rawCfg(1000000))
 		})
 	}
 	// bound tokens: on every chain one bound token per (other chain, {erc20, native})
@@ -149,13 +150,47 @@ func New(cfg Config) *Sys {
 						ori = strings.ToLower(s.tok[short[m]+":erc20"].String())
 					}
 					must(c.App.AggregateKeeper.RegisterERC20Trace(ctx, bt, ori, m, 0))
-					world.KeeperCall(c, ctx, erc20contracts.ERC20MinterBurnerDecimalsContract.ABI, c.Accounts["u1"].Eth, bt, "approve", endpointcontract.EndpointContractAddress, big.NewInt(1000000))
+					world.KeeperCall(c, ctx, erc20contracts.ERC20MinterBurnerDecimalsContract.ABI, c.Accounts["u1"].Eth, bt, "approve", endpointcontract.EndpointContractAddress, s.rawCfg(1000000))
 					s.tok[short[n]+":bound:"+short[m]+":"+what] = bt
 				}
 			}
 		})
 	}
 	return s
+}
+
+// scaleOf: raw amount of one ledger unit of a token (ERC-20 origin tokens and the tokens bound to them are scaled).
+func (s *Sys) scaleOf(tok common.Address) *big.Int {
+	if s.cfg.Scale != nil && tok != (common.Address{}) {
+		for name, a := range s.tok {
+			if a == tok && strings.HasSuffix(name, ":erc20") {
+				return s.cfg.Scale
+			}
+		}
+	}
+	return big.NewInt(1)
+}
+
+// raw converts ledger units of a token into its on-chain amount; units converts back (an amount that is not a whole
+// number of units maps to a value no ledger sum can equal).
+// rawCfg scales by the configured factor regardless of the token (fixture set-up of ERC-20 balances and allowances).
+func (s *Sys) rawCfg(units int64) *big.Int {
+	if s.cfg.Scale == nil {
+		return big.NewInt(units)
+	}
+	return new(big.Int).Mul(big.NewInt(units), s.cfg.Scale)
+}
+
+func (s *Sys) raw(tok common.Address, units int64) *big.Int {
+	return new(big.Int).Mul(big.NewInt(units), s.scaleOf(tok))
+}
+
+func (s *Sys) units(tok common.Address, v *big.Int) int64 {
+	q, r := new(big.Int).QuoRem(v, s.scaleOf(tok), new(big.Int))
+	if r.Sign() != 0 || !q.IsInt64() {
+		return -7777777
+	}
+	return q.Int64()
 }
 
 // tss reports whether chain `on` follows chain `of` through a TSS client (no proofs: the TSS account's signature is the proof).
@@ -308,7 +343,8 @@ func (s *Sys) sendTx(src, dst *world.Chain, kind string, amount int64) (tx []byt
 		must(err)
 		return src.EthTx(u1, &packetcontract.PacketContractAddress, nil, data), 0
 	}
-	data := world.CrossChainCallData(d, packettypes.Fee{TokenAddress: feeTok, Amount: big.NewInt(fee)})
+	d.Amount = s.raw(d.TokenAddress, amount)
+	data := world.CrossChainCallData(d, packettypes.Fee{TokenAddress: feeTok, Amount: s.raw(feeTok, fee)})
 	if base == "native" && fee > 0 {
 		value = new(big.Int).Add(value, big.NewInt(fee))
 	}
@@ -568,7 +604,7 @@ func (s *Sys) observeSends(c *world.Chain, pre, post map[string]map[string]strin
 		var td packettypes.TransferData
 		if len(p.TransferData) > 0 && td.ABIDecode(p.TransferData) == nil {
 			t.Token = common.HexToAddress(td.Token)
-			t.Amount = new(big.Int).SetBytes(td.Amount).Int64()
+			t.Amount = s.units(t.Token, new(big.Int).SetBytes(td.Amount))
 		}
 		s.tr = append(s.tr, t)
 		out = append(out, t)
@@ -803,6 +839,9 @@ func (s *Sys) feeBalance(c *world.Chain, t *transfer, who world.Account) *big.In
 
 func (s *Sys) senderHoldings(c *world.Chain, t *transfer) int64 {
 	v := s.holdings(c, s.tokenOf(t), c.Accounts["u1"])
+	if s.tokenOf(t) != (common.Address{}) {
+		return s.units(s.tokenOf(t), v)
+	}
 	return new(big.Int).Mod(v, big.NewInt(1<<40)).Int64() // native balances are large; deltas are what matters
 }
 
@@ -998,25 +1037,25 @@ func (s *Sys) checkConservation(add addFn) {
 						}
 					}
 				}
-				gotOut := oc.OutTokens(oriTok, d).Int64()
+				gotOut := s.units(oriTok, oc.OutTokens(oriTok, d))
 				if gotOut != escrow {
 					add("C03", "out-tokens-differ-from-ledger", fmt.Sprintf("%s outTokens[%s %s][%s]=%d, ledger says %d in escrow; transfers=%s", short[o], what, oriTok.Hex(), short[d], gotOut, escrow, s.ledgerString()))
 				}
 				if what == "erc20" {
-					held := oc.ERC20Balance(oriTok, endpointcontract.EndpointContractAddress).Int64()
+					held := s.units(oriTok, oc.ERC20Balance(oriTok, endpointcontract.EndpointContractAddress))
 					// the endpoint escrows this token for every destination
 					var all int64
 					for _, d2 := range s.w.Order {
 						if d2 != o {
-							all += oc.OutTokens(oriTok, d2).Int64()
+							all += s.units(oriTok, oc.OutTokens(oriTok, d2))
 						}
 					}
 					if held != all {
 						add("C03", "escrow-balance-differs-from-out-tokens", fmt.Sprintf("%s endpoint holds %d of its erc20, outTokens sum %d", short[o], held, all))
 					}
 				}
-				sup := dc.ERC20Supply(bound).Int64()
-				bind := dc.BindingAmount(bound, o).Int64()
+				sup := s.units(bound, dc.ERC20Supply(bound))
+				bind := s.units(bound, dc.BindingAmount(bound, o))
 				if sup != minted || bind != minted {
 					add("C03", "minted-differs-from-ledger", fmt.Sprintf("%s bound token of %s %s: totalSupply=%d bindings.amount=%d, ledger says %d minted; transfers=%s", short[d], short[o], what, sup, bind, minted, s.ledgerString()))
 				}
@@ -1033,7 +1072,7 @@ func (s *Sys) checkConservation(add addFn) {
 				if d == c {
 					continue
 				}
-				got := cc.OutTokens(tk, d).Int64()
+				got := s.units(tk, cc.OutTokens(tk, d))
 				sum += got
 				want := s.expectedLock(c, tk, d)
 				if got != want {
@@ -1041,7 +1080,7 @@ func (s *Sys) checkConservation(add addFn) {
 				}
 			}
 			if tk != (common.Address{}) {
-				if held := cc.ERC20Balance(tk, endpointcontract.EndpointContractAddress).Int64(); held != sum {
+				if held := s.units(tk, cc.ERC20Balance(tk, endpointcontract.EndpointContractAddress)); held != sum {
 					add("C03", "escrow-balance-differs-from-out-tokens", fmt.Sprintf("%s endpoint holds %d of %s, outTokens sum %d", short[c], held, name, sum))
 				}
 				var fees int64
@@ -1050,7 +1089,7 @@ func (s *Sys) checkConservation(add addFn) {
 						fees += t.Fee
 					}
 				}
-				if held := cc.ERC20Balance(tk, packetcontract.PacketContractAddress).Int64(); held != fees {
+				if held := s.units(tk, cc.ERC20Balance(tk, packetcontract.PacketContractAddress)); held != fees {
 					add("C03", "fee-escrow-differs-from-ledger", fmt.Sprintf("%s packet contract holds %d of %s, fees of un-acked packets %d", short[c], held, name, fees))
 				}
 			}
